@@ -95,11 +95,12 @@ func ExecSched(s *Script) *sim.Outcome {
 		w.Fail("race", "race:"+sig, "data race reported by the race detector: %s", sig)
 	}
 	total := len(setup)
+	raceOnly := sched.RaceEnabled // the -race build decides only the race / panic / deadlock clauses
 	for _, x := range written {
 		total += len(x)
 		w.Stats.Add("mut", int64(len(x)))
 	}
-	if w.V == nil {
+	if w.V == nil && !raceOnly {
 		var got []string
 		for _, e := range w.ML.GetLogs() {
 			if e != nil {
